@@ -599,7 +599,11 @@ def run_harness(h, keep=False, extra_defines=()):
                       and not (has_violation and p['status'] == 'UNKNOWN')
                       # a counterexample to an obligation is a real execution of the program text whether or not some
                       # loop could have run longer than the unwinding bound: only a *pass* depends on the unwinding assertions
-                      and not (has_violation and p['kind'] == 'unwind')]
+                      and not (has_violation and p['kind'] == 'unwind')
+                      # CBMC keeps executing after a failed check: once the code under test has, e.g., overflowed a buffer, helper
+                      # code of the harness that walks that buffer fails its own pointer checks as a consequence.  Explicit
+                      # harness-sanity assertions (unexpected calls, model limits) still block.
+                      and not (has_violation and p['kind'] == 'sanity' and not p['desc'].startswith('harness-sanity'))]
         if has_violation and any(p['kind'] == 'unwind' and p['status'] == 'FAILURE' for p in res['props']):
             res['unwind_incomplete'] = True
         if bad_sanity:
